@@ -192,6 +192,14 @@ EXTRA10 = {
     "C07": "A deviation from TLC's order-flip witness is decided by the rest of the check.",
     "C10": "A reset that is interrupted (caller gives up, client handler raises) followed by a second reset.",
 }
+EXTRA11 = {
+    "C02": "The cell an item occupies is taken from the table's declaration, not from the item under test.",
+    "C03": "Re-registration after removal (watch, unwatch, watch) is part of every history; a refused removal is a verdict.",
+    "C11": "Facades built on the all-ones block are updated to all zeros; reminder reports without a valid record.",
+    "C18": "Spas reporting versions without a shipped table: no other table is loaded in their place (both clients).",
+}
+for _k, _v in EXTRA11.items():
+    EXTRA[_k] = (EXTRA.get(_k, "") + " " + _v).strip()
 for _k, _v in EXTRA10.items():
     EXTRA[_k] = (EXTRA.get(_k, "") + " " + _v).strip()
 for _k, _v in EXTRA9.items():
